@@ -71,6 +71,9 @@ pub enum VAct {
     ReserveExact { i: u8 },
     TryReserve { i: u8 },
     TryReserveExact { i: u8 },
+    /// a fallible reservation the arena cannot satisfy (the controlled allocator refuses requests above 1 MiB);
+    /// the reference does nothing. The failed call must leave the vector (and its buffer) untouched and owned.
+    TryReserveRefused { exact: bool },
     ShrinkToFit,
     CloneCmp,
     IntoIter { front: u8, back: u8, forget: bool },
